@@ -79,7 +79,9 @@ def body(case, rec):
         mp.write_text(remap.map_agp_text(case))
         outd = d / "out"
         outd.mkdir()
-        out = outd / f"x.2.{fmt}"
+        # (the version in the output name has one or two digits)
+        ver = "12" if case.get("two_digit_version") else "2"
+        out = outd / f"x.{ver}.{fmt}"
         args = ["-a", src, "-p", mp, "-o", out, "-c", case.get("prefix", "SUPER_")]
         if not case["write_log"]:
             args.append("--no-write-log")
@@ -111,13 +113,21 @@ def body(case, rec):
 
         pre = re.escape(case.get("prefix", "SUPER_"))
         for n in names:
+            # every output file carries the root and version given with --output (x.<v>. or x.<haplotype>.<v>.)
+            if not re.match(rf"x\.([^.]+\.)?{ver}\.(?!\d+\.)", n):
+                raise Violation(f"output file {n} does not carry the root and version of --output x.{ver}.{fmt}: {names}")
+        any_chr = False
+        for n in names:
             if ".curated." in n and n.endswith("." + fmt):
                 text = O[n].decode("utf-8", "replace")
                 has_chr = re.search(rf"(^>|^|\t){pre}\d+(\t|$|\n)", text, re.M) is not None
                 csv_name = n.split(".curated.")[0] + ".chromosome.list.csv"
+                any_chr |= has_chr
                 if has_chr and csv_name not in O:
                     raise Violation(f"{n} holds numbered chromosomes but the run wrote no {csv_name}: {names}")
-        if case["write_log"] and "x.2.log" not in O:
+        if any_chr and f"x.{ver}.chr_report.csv" not in O:
+            raise Violation(f"curated assemblies hold numbered chromosomes but the run wrote no x.{ver}.chr_report.csv: {names}")
+        if case["write_log"] and f"x.{ver}.log" not in O:
             raise Violation(f"--write-log run (log level {case.get('log_level')}) wrote no log file: {names}")
         classes = {f"fmt_{fmt}", "log" if case["write_log"] else "no_log", "subprocess" if sub else "inprocess"}
         if len([n for n in names if n.endswith("." + fmt)]) > 1:
@@ -128,7 +138,7 @@ def body(case, rec):
             S = [names[sel[0] % len(names)]]
         else:
             S = [n for i, n in enumerate(names) if sel[i % len(sel)] % 2] or [names[sel[0] % len(names)]]
-        logname = "x.2.log"
+        logname = f"x.{ver}.log"
         nt = logname not in S or all(n.endswith((".agp", ".csv")) and not n.endswith("." + fmt) or n.endswith(".csv") for n in S)
         if logname not in S:
             classes.add("subset_without_log")
@@ -187,7 +197,7 @@ def body(case, rec):
                 remap.run_cli_inprocess(["--help"])  # (resets the logging state)
         # ---- no-clobber with bystanders only: files in the output directory that this run does not write (reports of an
         # earlier curation of the same specimen, notes) - nothing collides, and they must be left exactly as they are
-        cands = ["x.2.chr_report.csv", "README.txt", "x.1.log", "x.2.log.bak"] + [n.split(".curated.")[0] + ".chromosome.list.csv" for n in names if ".curated." in n]
+        cands = [f"x.{ver}.chr_report.csv", "README.txt", "x.1.log", f"x.{ver}.log.bak"] + [n.split(".curated.")[0] + ".chromosome.list.csv" for n in names if ".curated." in n]
         by = sorted({c for c in cands if c not in O})
         if case.get("bystanders", True) and by:
             wipe(outd)
@@ -241,6 +251,7 @@ def cases(draw):
     c["log_level"] = draw(st.sampled_from([None, None, "INFO", "WARNING", "ERROR", "DEBUG"]))
     c["symlinks"] = draw(st.integers(0, 3)) == 0
     c["input_named_like_output"] = draw(st.integers(0, 2)) == 0
+    c["two_digit_version"] = draw(st.integers(0, 2)) == 0
     return c
 
 
